@@ -363,7 +363,9 @@ def routed_noise(d, n):
         raise Violation("routed-answer-wrong", dnet=nn["dnet"], dadr=nn["dadr"], type=a["type"], invoke=a["invoke"])
     for (src, data) in peer.received:
         nn, a = wire.parse_frame(data)
-        if a is not None and a["type"] == 3:
+        # (the garbage may itself be a well-formed request - e.g. a ReadPropertyMultiple without specifications - and is then
+        # answered to its sender; what must not go there is the answer to the relayed request)
+        if a is not None and a["type"] == 3 and a["invoke"] == 0x42 and bytes(a["payload"]) == PV_ACK_BODY:
             raise Violation("answer-delivered-to-garbage-sender", garbage=garbage)
     check_health(d, w, lan, dev, peer, "routed-noise")
     d.reach()
